@@ -13,6 +13,8 @@
 #include <sys/file.h>
 #include <time.h>
 #include <unistd.h>
+#include <random>
+#include <sys/mman.h>
 
 namespace {
 
@@ -50,6 +52,9 @@ int g_perturb_pm = 0;
 
 uint64_t g_entropy_state = 0x1234;
 uint64_t g_entropy_draws = 0;
+bool g_entropy_on = false;     // entropy_seed() switches the simulated entropy source on
+bool g_pid_on = false;
+int g_sim_pid = 0;
 
 inline long rsys(long n, long a = 0, long b = 0, long c = 0, long d = 0) {
     return syscall(n, a, b, c, d);
@@ -176,7 +181,8 @@ bool disk_copy(const std::string &from, const std::string &to) {
 void disk_remove(const std::string &path) { rsys(SYS_unlink, (long) path.c_str()); }
 bool disk_exists(const std::string &path) { return rsys(SYS_access, (long) path.c_str(), F_OK) == 0; }
 
-void entropy_seed(uint64_t seed) { g_entropy_state = seed; g_entropy_draws = 0; }
+void entropy_seed(uint64_t seed) { g_entropy_state = seed; g_entropy_draws = 0; g_entropy_on = true; }
+void pid_set(int pid) { g_sim_pid = pid; g_pid_on = pid != 0; }
 uint64_t entropy_draws() { return g_entropy_draws; }
 
 } // namespace sim
@@ -185,6 +191,38 @@ uint64_t entropy_draws() { return g_entropy_draws; }
 extern "C" unsigned nix_verif_entropy(void) {
     g_entropy_draws++;
     return (unsigned) (sim::splitmix64(g_entropy_state) >> 16);
+}
+
+// ------------------------------------------------------------------ entropy seam without any hook in /repo:
+// std::random_device's out-of-line members (exported by libstdc++.so) are defined here, so every std::random_device that the
+// library's objects construct - whatever token they pass - draws from the simulated process's entropy stream
+static void entropy_bytes(void *buf, size_t n) {
+    unsigned char *p = (unsigned char *) buf;
+    while (n) { uint64_t v = sim::splitmix64(g_entropy_state); g_entropy_draws++; size_t k = n < 8 ? n : 8; memcpy(p, &v, k); p += k; n -= k; }
+}
+void std::random_device::_M_init(const std::string &) { }
+void std::random_device::_M_fini() { }
+std::random_device::result_type std::random_device::_M_getval() {
+    if (!g_entropy_on) { unsigned v = 0; if (rsys(SYS_getrandom, (long) &v, sizeof v, 0) != (long) sizeof v) v = (unsigned) rsys(SYS_getpid) * 2654435761u; return v; }
+    return nix_verif_entropy();
+}
+double std::random_device::_M_getentropy() const noexcept { return 32.0; }
+
+extern "C" ssize_t getrandom(void *buf, size_t n, unsigned int flags) {
+    if (!g_entropy_on) return (ssize_t) rsys(SYS_getrandom, (long) buf, (long) n, (long) flags);
+    entropy_bytes(buf, n);
+    return (ssize_t) n;
+}
+extern "C" int getentropy(void *buf, size_t n) {
+    if (n > 256) { errno = EIO; return -1; }
+    if (!g_entropy_on) return rsys(SYS_getrandom, (long) buf, (long) n, 0) == (long) n ? 0 : -1;
+    entropy_bytes(buf, n);
+    return 0;
+}
+// a process that asks for its pid gets the simulated one (two simulated processes may share it: different machines, pid reuse)
+extern "C" pid_t getpid(void) {
+    if (g_pid_on) return (pid_t) g_sim_pid;
+    return (pid_t) rsys(SYS_getpid);
 }
 
 // ------------------------------------------------------------------ clock
@@ -219,6 +257,16 @@ extern "C" int open(const char *path, int flags, ...) {
     mode_t mode = 0;
     if (flags & (O_CREAT | O_TMPFILE)) {
         va_list ap; va_start(ap, flags); mode = (mode_t) va_arg(ap, int); va_end(ap);
+    }
+    if (g_entropy_on && path && (!strcmp(path, "/dev/urandom") || !strcmp(path, "/dev/random"))) {
+        long mfd = rsys(SYS_memfd_create, (long) "simulated-entropy", 0);
+        if (mfd >= 0) {
+            unsigned char blk[4096];
+            for (int i = 0; i < 16; i++) { entropy_bytes(blk, sizeof blk); if (rsys(SYS_write, mfd, (long) blk, sizeof blk) < 0) break; }
+            rsys(SYS_lseek, mfd, 0, SEEK_SET);
+            if (mfd < MAXFD) g_fd[mfd].sim = false;
+            return (int) mfd;
+        }
     }
     long fd = rsys(SYS_openat, AT_FDCWD, (long) path, flags, mode);
     if (fd >= 0 && fd < MAXFD) {
